@@ -746,7 +746,7 @@ def _run(ctx, restore):
             ctx.note("regenerated tables: sufficiency decider fails for %s order %s entry %s" % (m, o, e))
         for x in summ["bad_derefs"][:8]:
             ctx.note("a data iterator is dereferenced outside a callback argument: " + x[:200])
-        for flag in ("callback_classes_ok", "derefs_ok", "dispatch_ok"):
+        for flag in ("callback_classes_ok", "wrappers_ok", "derefs_ok", "dispatch_ok"):
             if summ["flags"].get(flag) == "0":
                 ctx.note("regenerated tables: decider %s is false" % flag)
     n += evaluate(ctx, exe, mexe, needs, plan(ctx, ctx.tier, rng), ctx.tier, rng, stats, samples)
